@@ -171,13 +171,16 @@ def do_active(req):
         for name in c["sims"]:
             try:
                 prog = build_program([lambda: pq.Q(all) | pq.Vacuum()], c["gates"])
-                sim = table[name](d=d, config=pq.Config(cutoff=cutoff, hbar=hbar))
+                # the Gaussian state is exact whatever the cutoff, which only selects the
+                # listed basis states: list just the compared sectors there
+                cut = min(nmax + 1, cutoff) if name == "gaussian" else cutoff
+                sim = table[name](d=d, config=pq.Config(cutoff=cut, hbar=hbar))
                 st = sim.execute(prog).state
                 r = {}
                 r["probs"] = np.asarray(st.fock_probabilities, dtype=float)[:hi].tolist()
                 dm = np.asarray(st.density_matrix)
                 r["dm"] = enc(dm[:hi, :hi])
-                basis = get_fock_space_basis(d=d, cutoff=cutoff)
+                basis = get_fock_space_basis(d=d, cutoff=cut)
                 r["pdp"] = [float(st.get_particle_detection_probability(np.array(basis[i]))) for i in range(hi)]
                 rec[name] = r
             except Exception as e:  # noqa: BLE001
@@ -187,16 +190,15 @@ def do_active(req):
 
 
 def main():
+    import time
+
     req = json.load(sys.stdin)
-    out = {}
-    if "tables" in req:
-        out["tables"] = do_tables(req["tables"])
-    if "slos" in req:
-        out["slos"] = do_slos(req["slos"])
-    if "passive" in req:
-        out["passive"] = do_passive(req["passive"])
-    if "active" in req:
-        out["active"] = do_active(req["active"])
+    out = {"timing": {}}
+    for key, fn in (("tables", do_tables), ("slos", do_slos), ("passive", do_passive), ("active", do_active)):
+        if key in req:
+            t0 = time.time()
+            out[key] = fn(req[key])
+            out["timing"][key] = round(time.time() - t0, 1)
     print(json.dumps(out))
 
 
